@@ -687,7 +687,7 @@ def spec_signature(spec):
 
 # ----------------------------------------------------------------------------- directed scenarios
 
-SCENARIOS = ["psv", "prv", "fcv", "tcv", "pump_shutoff", "cv_reverse", "power_pump", "pump_curves", "cv_htol", "pump_points", "tank_tank", "cutset", "cv_cascade", "tank_limit"]
+SCENARIOS = ["psv", "prv", "fcv", "tcv", "pump_shutoff", "cv_reverse", "power_pump", "pump_curves", "cv_htol", "pump_points", "tank_tank", "cutset", "cv_cascade", "tank_limit", "head_pattern"]
 
 
 def _opts(rng, **kw):
@@ -854,6 +854,18 @@ def scenario_network(rng, name, variant=0):
                  _junc("J0", 5.0, 0.002, "pat0"), _junc("J1", 8.0, _r(rng, 0.004, 0.008, 4))]
         links = [_pipe("P1", "R0", "J0", L=200.0, d=0.25), _pipe("P2", "J0", "T0", L=100.0, d=0.2), _pipe("P2b", "T0", "J0", L=150.0, d=0.15, cv=True),
                  _pipe("P3", "T1", "J1", L=100.0, d=0.2), _pipe("P4", "J0", "J1", L=800.0, d=0.1)]
+    elif name == "head_pattern":
+        # reservoirs whose head follows a pattern with pairwise different multipliers, on a non-zero pattern_start that is not a multiple of
+        # the pattern's period; plain open pipes: the REPORTED reservoir head must be the head the step was solved with
+        pats["hp"] = [1.0, 1.06, 0.93, 1.11, 0.97]
+        pats["hq"] = [1.0, 0.9, 1.05]
+        opts = _opts(rng, demand_model=["DD", "PDD"][variant % 2])
+        step = opts["pattern_timestep"]
+        opts.update({"hydraulic_timestep": step, "report_timestep": step, "pattern_start": step * rng.choice([1, 2, 3]), "duration": 4 * step})
+        nodes = [{"name": "R0", "type": "reservoir", "head": _r(rng, 55, 70, 1), "head_pattern": "hp"},
+                 {"name": "R1", "type": "reservoir", "head": _r(rng, 40, 50, 1), "head_pattern": "hq"},
+                 _junc("J0", 5.0, _r(rng, 0.002, 0.008, 4), "pat0"), _junc("J1", 8.0, _r(rng, 0.002, 0.006, 4))]
+        links = [_pipe("P1", "R0", "J0", L=300.0, d=0.25), _pipe("P2", "J0", "J1", L=200.0, d=0.2), _pipe("P3", "J1", "R1", L=400.0, d=0.2)]
     elif name == "cv_htol":
         # R0 -CV pipe-> J0 -pipe-> R1 with R1 within / just outside the head tolerance above R0: only the FLOW test can close the CV
         off = rng.choice([0.0001, 0.00005, 0.00014, 0.00016, 0.001, -0.0001, 0.00012])
